@@ -246,6 +246,27 @@ def tie_a(prop, tier, seed):
     return cases, dis, stats
 
 
+# ------------------------------------------------------------------ extraction cross-check
+def model_hash():
+    h = hashlib.sha256()
+    for p in coq_sources() + [os.path.join(VERIF, 'ocaml', 'driver.ml')]:
+        h.update(open(p, 'rb').read())
+    return h.hexdigest()
+
+
+def extraction_crosscheck(cases, seed):
+    """the extracted evaluator agrees with Coq's vm_compute on a sample (cached per model version)"""
+    import xcheck
+    key = 'xcheck-' + hashlib.sha256((model_hash() + '|%d' % seed).encode()).hexdigest()[:32]
+    got = cache_get(key)
+    if got is None:
+        got = xcheck.run(cases, ALL_CFGS, seed)
+        cache_put(key, got)
+    if got['disagree']:
+        raise runner.Infra('extracted evaluator disagrees with vm_compute on ' + ', '.join(got['disagree'][:5]))
+    return got
+
+
 # ------------------------------------------------------------------ behaviour correspondence (tie B)
 ALL_TAGS = ['eq', 'cmp', 'pcmp', 'hash', 'clone', 'default', 'debug', 'debugp', 'zeroize', 'drop']
 TIEB_TAGS = {
@@ -350,6 +371,7 @@ def check(prop, tier, seed):
                                 replay_cmd='cd /verif/coq && make -f Makefile.coq && coqc -Q . DW Props/%s.v' % prop), False))
     # 2. correspondence
     cases, dis, stats = tie_a(prop, tier, seed)
+    xc = extraction_crosscheck(cases, seed)
     mine = [d for d in dis if owns(prop, d)]
     others = len(dis) - len(mine)
     for d in sorted(mine, key=lambda d: len(d['src']))[:5]:
@@ -415,6 +437,7 @@ def check(prop, tier, seed):
             correspondence=stats, disagreements_owned=len(mine), disagreements_other_properties=others,
             known_findings_reproduced=[k['id'] for k in known],
             behaviour=bstats if bstats else 'not applicable to this property',
+            extraction_crosscheck_vm_compute=xc,
             samples=samples, exhaustive=False),
         assumptions=TRUSTED_BASE)
     write_evidence(prop, ev)
